@@ -2,7 +2,7 @@
 # dev tool: every stored seed, applied to a SCRATCH COPY of /repo (never to /repo itself), checked with its property's check.
 # usage: tools/run_seeds.sh [seed-prefix]      -> one line per seed on stdout
 cd /verif
-W=/var/tmp/walrus-seedrun
+W=${SEEDW:-/var/tmp/walrus-seedrun2}
 mkdir -p $W/out
 rsync -a --delete --exclude target /repo/ $W/repo/
 export VERIF_REPO=$W/repo VERIF_OUT=$W/out VERIF_SCRATCH=$W/scratch
